@@ -10,7 +10,7 @@ STAGES = ["dfa", "min", "pruned", "reindexed"]
 
 
 def patterns_for(tier, rng):
-    pats = R.corpus(PROP) + list(R.EVERY_CONSTRUCT) + list(R.EDGE_BLANKS) + list(R.PROBLEM) + list(R.ALL_ESCAPES)
+    pats = R.corpus(PROP) + list(R.EVERY_CONSTRUCT) + list(R.EDGE_BLANKS) + list(R.EXTREME_GROUPS) + list(R.PROBLEM) + list(R.ALL_ESCAPES)
     pats += [a + q for a in R.ATOMS for q in R.QUANTS]
     n = 150 if tier == "quick" else 3000
     for _ in range(n):
